@@ -27,6 +27,10 @@ impl Args {
                 i += 1;
             }
         }
+        if map.contains_key("warmup") {
+            // used by the runner to make cargo/miri build the binary before the shards start
+            std::process::exit(0);
+        }
         Args { map }
     }
     pub fn get(&self, k: &str) -> Option<&str> {
